@@ -102,6 +102,9 @@ func ruleExtractorErrors(r *Run) {
 	for _, f := range []struct{ recv, name string }{{"", "extractExprs"}, {"", "extractSome"}, {"", "extractAll"}, {"", "parseValue"}, {"", "parsePackEntry"},
 		{"*LogfmtExtractor", "extractSome"}, {"*LogfmtExtractor", "extractAll"}} {
 		fn := resolveFn(p, enginePkg, f.recv, f.name)
+		if fn == nil && f.recv == "" {
+			fn = jsonExtractRole(p, f.name)
+		}
 		if fn == nil {
 			r.Ob("ANCHOR", "logqlengine."+f.name, "anchor resolves").Fail("-", "function not found")
 			continue
@@ -176,6 +179,56 @@ func ruleExtractorErrors(r *Run) {
 	}
 }
 
+// jsonExtractRole finds the JSON extraction helper playing the role of the baseline function
+// `name` when it is no longer a package-level function of that name: the helpers are the
+// functions the JSON stage's Process reaches; the path form hands the line to jsonexpr.Extract,
+// the field-list form walks the object with a membership test on the key, the plain form walks
+// it without one.
+func jsonExtractRole(p *Program, name string) *ssa.Function {
+	proc := p.Method(enginePkg, "JSONExtractor", "Process")
+	if proc == nil {
+		return nil
+	}
+	var found []*ssa.Function
+	for _, g := range funcGroup(proc) {
+		if g == proc || g.Parent() != nil {
+			continue
+		}
+		callsExtract, walks, lookup := false, false, false
+		for _, c := range callsIn(g) {
+			if callee := staticCallee(c); callee != nil && callee.Pkg != nil && strings.HasSuffix(callee.Pkg.Pkg.Path(), "/"+jsonexprPkg) && cname(callee) == "Extract" {
+				callsExtract = true
+			}
+			if callIs(c, jxPath, "(*Decoder).ObjBytes") {
+				walks = true
+			}
+		}
+		for _, a := range g.AnonFuncs {
+			allInstrs(a, func(in ssa.Instruction) {
+				if l, ok := in.(*ssa.Lookup); ok && l.CommaOk {
+					lookup = true
+				}
+			})
+		}
+		role := ""
+		switch {
+		case callsExtract:
+			role = "extractExprs"
+		case walks && lookup:
+			role = "extractSome"
+		case walks:
+			role = "extractAll"
+		}
+		if role == name {
+			found = append(found, g)
+		}
+	}
+	if len(found) == 1 {
+		return found[0]
+	}
+	return nil
+}
+
 // ruleLabelIdentity: extracted fields are stored under the label they belong to.
 func ruleLabelIdentity(r *Run) {
 	p := r.P
@@ -199,6 +252,9 @@ func ruleLabelIdentity(r *Run) {
 	// json extractSome: membership polarity, same key
 	{
 		fn := p.Func(enginePkg, "extractSome")
+		if fn == nil {
+			fn = jsonExtractRole(p, "extractSome")
+		}
 		o := r.Ob("PV-PAIR", "logqlengine.extractSome (json)", "with a field list exactly the listed keys are exposed, each under its own name; other keys are skipped")
 		if fn == nil || len(fn.AnonFuncs) == 0 {
 			o.Fail("-", "function/closure not found")
